@@ -92,6 +92,14 @@ def check(ctx, rep):
                     % [r.path for r in roots])
             continue
         path_fns = cg.reach(roots)
+        def host_kpath(f):
+            # a closure that lives in a helper spliced into exactly one function belongs to that function (the site of a finding does
+            # not move when the code around it is wrapped into a helper or a for_each closure)
+            if f.kind == 'Closure':
+                hosts = [h for h in http.built if h.kind != 'Closure' and f.root in (h.j.get('inlined') or [])]
+                if len(hosts) == 1:
+                    return hosts[0].kpath
+            return f.kpath
         for f in sorted(path_fns, key=lambda f: f.path):
             site = '%s@%s' % (f.kpath, cfg)
             hits = 0
@@ -99,7 +107,7 @@ def check(ctx, rep):
                 what = panicking_entry(t)
                 if what:
                     hits += 1
-                    rep.bad('R15.a', '%s|%s' % (f.kpath, last_seg(t['callee']) + ':' + ','.join(norm(x) for x in t.get('targs') or [])),
+                    rep.bad('R15.a', '%s|%s' % (host_kpath(f), last_seg(t['callee']) + ':' + ','.join(norm(x) for x in t.get('targs') or [])),
                             'shell-input path: %s calls %s' % (f.where(bb), what), site=site)
             for bb, kind, detail, t in panic_sites(f):
                 if kind == 'assert':
@@ -311,6 +319,14 @@ def check_header_writes(rep, http, cfg):
     f = conv[0]
     appends = [bb for bb, t in f.calls(HT + '::response::Response::append_header', HT + '::response::Response::insert_header')]
     loop_appends = [bb for bb in appends if f.in_cycle(bb)]
+    # the same enumeration written with for_each: the closure given to it is the loop body
+    for bb, t in f.calls('core::iter::traits::iterator::Iterator::for_each', 'core::iter::traits::iterator::Iterator::try_for_each'):
+        for o in origins(f, t['args'][1]) if len(t['args']) > 1 else []:
+            if o.kind == 'agg' and o.stmt['rv'].get('ak') == 'closure':
+                body = next((h for h in http.built if h.path == o.stmt['rv']['def']), None)
+                if body is not None and list(body.calls(HT + '::response::Response::append_header', HT + '::response::Response::insert_header')):
+                    appends.append(bb)
+                    loop_appends.append(bb)
     side = [(bb, t) for bb, t in f.calls(*HEADER_WRITING_SIDE_EFFECT)]
     removes = [bb for bb, t in f.calls(HT + '::response::Response::remove_header')
                if any(o.kind == 'const' and 'CONTENT_TYPE' in (o.s or '') for o in origins(f, t['args'][1]))]
